@@ -201,6 +201,7 @@ type EEOpts struct {
 	AKI     int
 	Subject []byte // raw subject DN override
 	RSA     int
+	NoSKI   bool // IssueWithKey: no subjectKeyIdentifier (what most CAs issue for end entities)
 }
 
 var (
@@ -259,9 +260,11 @@ func (ca *CA) IssueWithKey(o EEOpts) (*x509.Certificate, crypto.Signer) {
 	if o.Subject != nil {
 		tmpl.RawSubject = o.Subject
 	}
-	pk, _ := x509.MarshalPKIXPublicKey(key.Public())
-	h := sha1.Sum(pk)
-	tmpl.SubjectKeyId = h[:]
+	if !o.NoSKI {
+		pk, _ := x509.MarshalPKIXPublicKey(key.Public())
+		h := sha1.Sum(pk)
+		tmpl.SubjectKeyId = h[:]
+	}
 	der, err := x509.CreateCertificate(rand.Reader, tmpl, ca.Cert, key.Public(), ca.Key)
 	if err != nil {
 		panic(fmt.Sprintf("IssueWithKey: %v", err))
